@@ -339,3 +339,20 @@ Theorem local_cookies_gen cfg q c cookies user loc :
 Proof.
   intros Hn Ho Hr. apply local_cookies; [exact Hn | exact Ho | | | exact Hr]; vm_compute; reflexivity.
 Qed.
+
+(* the process (cmd/sso-auth after d58c694): every response - the TimeoutHandler's own 503 included -
+   carries every header of the table with exactly its value *)
+Lemma auth_keys_not_gap : forallb (fun kv => negb (str_eqb (canon (fst kv)) (canon k_gap_auth))) AT = true.
+Proof. vm_compute. reflexivity. Qed.
+
+Theorem auth_process_headers fired ops k v :
+  forallb aop_ok ops = true -> tbl_lookup k AT = Some v -> hget k (auth_process AT fired ops) = [VStr v].
+Proof.
+  intros Hops Hk. unfold auth_process, hdel. rewrite hget_hdel_raw.
+  destruct (lookup_hit_key k AT v Hk) as [kv [Hin Hkv]]. apply str_eqb_eq in Hkv.
+  pose proof auth_keys_not_gap as G. rewrite forallb_forall in G. specialize (G kv Hin).
+  rewrite <- Hkv in G. apply negb_true_iff in G. rewrite G.
+  assert (Ho : hget k (set_all VStr AT []) = [VStr v]) by (rewrite hget_set_all, Hk; reflexivity).
+  destruct fired; [exact Ho|].
+  rewrite hget_merge_replace. destruct (hhas k (auth_handle AT ops)); [apply auth_headers_gen; assumption | exact Ho].
+Qed.
